@@ -556,7 +556,19 @@ pub fn gen_c06(r: &mut Rng, id: usize) -> Group {
     let regions = at.len();
     let spec = {
         let mut s = Spec::default();
-        match r.below(6) {
+        match r.below(9) {
+            // the ordinal of a value counts VALUES: malformed regions in front of it do not move it
+            6 => {
+                s.selects.push("&index=i".into());
+                s.selects.push(".=v".into());
+            }
+            7 => {
+                s.selects.push("&index-in-file=f".into());
+                s.selects.push("(+ &index 0)=i".into());
+            }
+            8 => {
+                s.filter = Some("(= 0 (% &index 2))".into());
+            }
             0 => s.selects.push("(size .)=n".into()),
             1 => s.filter = Some("(not (null? .))".into()),
             2 => s.sorts.push(".".into()),
@@ -885,11 +897,18 @@ pub fn gen_c10(r: &mut Rng, id: usize, thorough: bool) -> Group {
     }
     let mut c = case(format!("C10-{id}"));
     c.spec.unique = true;
+    // (now and then both selections under ONE title: the printed object then shows the last one only, but rows are compared
+    //  on the selected values, column by column)
+    let same_title = selections >= 2 && r.chance(30);
     if selections >= 1 {
-        c.spec.selects.push(".k=k".into());
+        c.spec.selects.push(if same_title { ".k=v".into() } else { ".k=k".into() });
     }
     if selections >= 2 {
-        c.spec.selects.push(".j=j".into());
+        c.spec.selects.push(if same_title { ".j=v".into() } else { ".j=j".into() });
+    }
+    if same_title {
+        // csv shows every column (and quotes strings), so that the kept rows can be told apart in the output
+        c.spec.style = Some("csv".into());
     }
     if r.chance(25) {
         c.spec.filter = Some("(not (null? .))".into());
@@ -986,9 +1005,19 @@ pub fn gen_c11(r: &mut Rng, id: usize) -> Group {
     };
     let a = if special { let n_ = r.range(1, 8); gen_c11_parent_rows(r, n_) } else if long { let n_ = r.range(30, 120); long_rows(r, n_) } else { let n_ = r.range(0, 20); gen_rows(r, n_, &u) };
     let b = if special { let n_ = r.range(1, 8); gen_c11_parent_rows(r, n_) } else if long { let n_ = r.range(30, 120); long_rows(r, n_) } else { let n_ = r.range(0, 20); gen_rows(r, n_, &u) };
+    // small rows and rows of several KiB side by side, in every output style: whatever the output stage batches, rows leave in
+    // the order of the records
+    let bigrows = !special && !long && r.chance(3);
+    let big_rows = |r: &mut Rng, n: usize| -> Vec<V> {
+        (0..n).map(|i| {
+            let len = if r.chance(35) { r.range(4090, 5200) } else { r.range(0, 30) };
+            V::Obj(vec![("id".into(), V::Int(i as i128)), ("k".into(), V::Str(r.ps(&["x", "y", "é"]).repeat(len)))])
+        }).collect()
+    };
+    let (a, b) = if bigrows { let na = r.range(1, 6); let nb = r.range(1, 6); (big_rows(r, na), big_rows(r, nb)) } else { (a, b) };
     // records that SHARE their parts (the same list, the same subject string) but differ in what the expressions read from the
     // enclosing record: a value computed for a part of one record must not be reused for the equal part of another
-    let ctxdep = !special && !long && r.chance(14);
+    let ctxdep = !special && !long && !bigrows && r.chance(14);
     let ctx_rows = |r: &mut Rng, n: usize| -> Vec<V> {
         (0..n).map(|_| V::Obj(vec![
             ("k".into(), V::Int(r.below(4) as i128)),
@@ -999,7 +1028,18 @@ pub fn gen_c11(r: &mut Rng, id: usize) -> Group {
         ])).collect()
     };
     let (a, b) = if ctxdep { let na = r.range(1, 5); let nb = r.range(1, 5); (ctx_rows(r, na), ctx_rows(r, nb)) } else { (a, b) };
-    let spec = if ctxdep {
+    let spec = if bigrows {
+        let mut s = Spec::default();
+        s.selects.push(".id=id".into());
+        s.selects.push(".k=k".into());
+        match r.below(4) {
+            0 => s.style = Some("text".into()),
+            1 => s.style = Some("csv".into()),
+            2 => { s.style = Some("text".into()); s.headers = true; }
+            _ => {}
+        }
+        s
+    } else if ctxdep {
         let mut s = Spec::default();
         s.sets.push("@addk=(+ . ^.k)".into());
         s.sets.push("@cmp=(> . ^.k)".into());
@@ -1078,6 +1118,9 @@ pub fn gen_c11(r: &mut Rng, id: usize) -> Group {
     if ctxdep {
         g.labels.push("kind:shared-parts".into());
     }
+    if bigrows {
+        g.labels.push("kind:big-rows".into());
+    }
     g
 }
 
@@ -1152,6 +1195,22 @@ pub fn gen_c12(r: &mut Rng, id: usize) -> Group {
         // (a pipe whose first stage is nothing is nothing: compare on the records that have every member used)
         c.spec.selects.push(format!("(? (and (string? .name) (number? .one)) {pe} \"skip\")=bound3"));
         c.spec.selects.push(format!("(? (and (string? .name) (number? .one)) {eq} \"skip\")=plain3"));
+    }
+    if r.chance(35) {
+        // bindings whose VALUE comes from the record (so it differs from record to record), and bodies that read an earlier
+        // selection by name: still nothing but substitution
+        let guard = "(and (string? .name) (number? .one))";
+        let pairs4: &[(&str, &str)] = &[
+            ("(define \"m\" /sel0/ (push [] @m 1))", "(push [] /sel0/ 1)"),
+            ("(set \"x\" .one (map .arr (push [] . :x)))", "(map .arr (push [] . ^.one))"),
+            ("(set \"x\" .name (define \"m\" (concat :x \"!\") @m))", "(concat .name \"!\")"),
+            ("(set \"x\" .one (push [] :x :x (set \"x\" .name :x) :x))", "(push [] .one .one .name .one)"),
+            ("(define \"m\" (concat /sel0/ .name) (set \"y\" 1 @m))", "(concat /sel0/ .name)"),
+        ];
+        let (b4, p4) = *r.pick(pairs4);
+        c.spec.selects.insert(0, ".name=sel0".into());
+        c.spec.selects.push(format!("(? {guard} {b4} \"skip\")=bound4"));
+        c.spec.selects.push(format!("(? {guard} {p4} \"skip\")=plain4"));
     }
     c.sources.push(stdin_src(rec.as_bytes().to_vec()));
     let mut g = Group::new(vec![c]);
@@ -1320,6 +1379,11 @@ pub fn gen_c13(r: &mut Rng, id: usize) -> Group {
             ("(? (= @m :v) .k .j)", "(? (= {m} {v}) .k .j)"),
             ("(default @m :v)", "(default {m} {v})"),
             ("(push (default .l []) :v)", "(push (default .l []) {v})"),
+            // a variable bound INSIDE the expression to a value of the record: another value for every record
+            // (a binding to nothing does not evaluate its body: only records that have the member)
+            ("(? (number? .id) (set \"w\" .id (push [] :w (+ :w 1) :v)) \"none\")", "(? (number? .id) (push [] .id (+ .id 1) {v}) \"none\")"),
+            ("(? (number? .id) (set \"w\" .id (define \"q\" (+ :w 1) (push [] @q :w @m))) \"none\")", "(? (number? .id) (push [] (+ .id 1) .id {m}) \"none\")"),
+            ("(? (number? .id) (map (push [] 1 2) (set \"w\" (+ . ^.id) (* :w :w))) \"none\")", "(? (number? .id) (map (push [] 1 2) (* (+ . ^.id) (+ . ^.id))) \"none\")"),
         ];
         let (with, without) = *r.pick(shapes);
         let plain = without.replace("{v}", v).replace("{m}", m);
@@ -1594,6 +1658,9 @@ pub fn gen_c15(r: &mut Rng, id: usize) -> Group {
         p.push(V::Arr(vec![V::Int(1), V::Str("q\"".into())]));
         p.push(V::Obj(vec![("k".into(), V::Str("v,w".into()))]));
         p.push(V::Arr(vec![]));
+        // arrays and objects are written as concise JSON text WITH its non-ASCII characters as they are
+        p.push(V::Arr(vec![V::Str("café".into()), V::Str("日本".into())]));
+        p.push(V::Obj(vec![("clé".into(), V::Str("ÿ".into())), ("n".into(), V::Arr(vec![V::Str("😃".into())]))]));
         // random strings over the characters csv and text output have to get right
         let alphabet: Vec<char> = "\",\n\r\t ';|ab1é日\\/".chars().collect();
         for _ in 0..5 {
@@ -2472,6 +2539,10 @@ pub fn oracle(prop: &str, g: &Group, obs: &[Obs]) -> Option<String> {
                 if sel == 0 && filter_nulls {
                     keys.retain(|k| k.0 != Some(C10_NULL_SPELLING));
                 }
+                // (csv: the header line is not a row)
+                let csv = g.cases[0].spec.style.as_deref() == Some("csv");
+                let nr: Vec<Vec<u8>> = if csv { nr.iter().skip(1).cloned().collect() } else { nr.clone() };
+                let ur: Vec<Vec<u8>> = if csv { ur.iter().skip(1).cloned().collect() } else { ur.clone() };
                 if keys.len() == nr.len() {
                     let mut want: Vec<&Vec<u8>> = vec![];
                     for (i, k) in keys.iter().enumerate() {
@@ -2513,7 +2584,7 @@ pub fn oracle(prop: &str, g: &Group, obs: &[Obs]) -> Option<String> {
                 return Some(format!("run gave {}", o.res));
             }
             for row in parse_rows(&o.out, "\n").ok()? {
-                for (x, y) in [("bound", "plain"), ("bound2", "plain2"), ("bound3", "plain3"), ("viaSplit0", "viaSplit")] {
+                for (x, y) in [("bound", "plain"), ("bound2", "plain2"), ("bound3", "plain3"), ("bound4", "plain4"), ("viaSplit0", "viaSplit")] {
                     if get_key(&row, x) != get_key(&row, y) {
                         return Some(format!("{x} = {:?} but {y} = {:?}", get_key(&row, x).map(value::render), get_key(&row, y).map(value::render)));
                     }
@@ -2656,6 +2727,24 @@ pub fn oracle(prop: &str, g: &Group, obs: &[Obs]) -> Option<String> {
                     return Some(format!("delivery {} changes the output", g.cases[i].id));
                 }
             }
+            // the same bytes as ONE FILE: same outcome, same values, ordinals and positions; only &file-name differs
+            if obs.len() > 3 {
+                let file = &obs[3];
+                if file.res != whole.res {
+                    return Some(format!("{}: the bytes on standard input end with {}, the same bytes as a file with {}", g.cases[3].id, whole.res, file.res));
+                }
+                if whole.res == "ok" {
+                    let strip = |out: &[u8]| -> Option<Vec<V>> {
+                        Some(parse_rows(out, "\n").ok()?.into_iter().map(|r| match r {
+                            V::Obj(m) => V::Obj(m.into_iter().filter(|(k, _)| k != "n").collect()),
+                            other => other,
+                        }).collect())
+                    };
+                    if strip(&whole.out) != strip(&file.out) {
+                        return Some(format!("{}: reading the bytes from a file gives other rows than reading them from standard input", g.cases[3].id));
+                    }
+                }
+            }
             // ordinals and positions of the whole-stdin run, recomputed from the bytes (clean streams only)
             let tag: std::collections::HashMap<&str, &str> = g.tag.split_whitespace().filter_map(|t| t.split_once('=')).collect();
             if whole.res == "ok" && tag.get("noisy") == Some(&"0") {
@@ -2740,6 +2829,16 @@ pub fn oracle(prop: &str, g: &Group, obs: &[Obs]) -> Option<String> {
             if obs.len() > 5 {
                 let multi = &obs[4];
                 let alone = &obs[5..];
+                // cutting the bytes into files can only create malformed regions (a value cut in two, a character cut in two):
+                // under the default policy these are skipped, the run still succeeds
+                if whole.res == "ok" && g.cases[0].spec.on_error.is_none() {
+                    if multi.res != "ok" {
+                        return Some(format!("{}: the bytes cut into files end the run with {} {}", g.cases[4].id, multi.res, multi.panic_msg));
+                    }
+                    if let Some((c, o)) = g.cases[5..].iter().zip(alone).find(|(_, o)| o.res != "ok") {
+                        return Some(format!("{}: one of the files on its own ends the run with {} {}", c.id, o.res, o.panic_msg));
+                    }
+                }
                 if multi.res == "ok" && alone.iter().all(|o| o.res == "ok") {
                     let mrows = parse_rows(&multi.out, "\n").ok()?;
                     let mut want: Vec<(Option<V>, Option<V>, Option<V>)> = vec![];
